@@ -1,12 +1,115 @@
 import D2V.Model.Edit
-/-! C38 — editing API (placeholder lemmas; replaced by the real development) -/
+import D2V.Proofs.EditPaths
+/-!
+  C38 — Delete removes exactly the target and keeps its children (abstract semantics `Edit.Spec`).
+  `deleteObj d x ren`: `x` and the connections attached to it disappear, the children of `x` move to `x`'s parent
+  (`ren` = the names chosen for children whose hoisted ID is taken, `validHoist` = that choice is fresh and made only
+  when needed).  `deleteEdge d e`: exactly `e` disappears, later parallel connections move down by one.
+  The driver evaluates `deleteObjClauses` / `deleteEdgeClauses` / `deleteAttrClauses` on the real before/after pair.
+-/
 namespace D2V.Edit
 
-theorem C38_firstFailing_none_iff (cs : List Clause) : firstFailing cs = none ↔ allHold cs = true := by
-  induction cs with
-  | nil => simp [firstFailing, allHold]
-  | cons c r ih =>
-    unfold firstFailing
-    cases h : c.holds <;> simp [allHold, h] at * <;> exact ih
+/-- **exactly the target and the connections attached to it are removed** -/
+theorem delete_exact (d : Diagram) (x : Path) (ren : List (String × String)) :
+    (Spec.deleteObj d x ren).objs = (d.objs.filter fun o => !samePath o.path x).map (Obj.mapPath (hoist x ren)) ∧
+    (Spec.deleteObj d x ren).edges = (d.edges.filter fun e => !e.touches x).map (Edge.mapPaths (hoist x ren)) ∧
+    (∀ o ∈ d.objs, isPre x o.path = false → o ∈ (Spec.deleteObj d x ren).objs) ∧
+    (∀ o' ∈ (Spec.deleteObj d x ren).objs, ∃ o ∈ d.objs, samePath o.path x = false ∧
+        o'.label = o.label ∧ o'.attrs = o.attrs ∧ o'.path = hoist x ren o.path) ∧
+    (∀ e' ∈ (Spec.deleteObj d x ren).edges, ∃ e ∈ d.edges, e.touches x = false ∧
+        e'.label = e.label ∧ e'.attrs = e.attrs ∧ e'.idx = e.idx ∧ e'.sa = e.sa ∧ e'.da = e.da ∧
+        e'.src = hoist x ren e.src ∧ e'.dst = hoist x ren e.dst) := by
+  refine ⟨rfl, rfl, ?_, ?_, ?_⟩
+  · intro o ho hout
+    simp only [Spec.deleteObj, Spec.applyMap, List.mem_map, List.mem_filter]
+    have hns : samePath o.path x = false := by
+      cases hs : samePath o.path x with
+      | false => rfl
+      | true =>
+        have : isPre x o.path = true := by
+          unfold samePath at hs
+          unfold isPre
+          have : keyOf o.path = keyOf x := by simpa using hs
+          rw [this, List.isPrefixOf_iff_prefix]
+          exact List.prefix_refl _
+        rw [this] at hout; cases hout
+    have hnu : isUnder x o.path = false := by
+      cases hu : isUnder x o.path with
+      | false => rfl
+      | true => rw [isUnder_isPre hu] at hout; cases hout
+    exact ⟨o, ⟨ho, by simp [hns]⟩, by simp [Obj.mapPath, hoist_outside x ren o.path hnu]⟩
+  · intro o' ho'
+    simp only [Spec.deleteObj, Spec.applyMap, List.mem_map, List.mem_filter] at ho'
+    rcases ho' with ⟨o, ⟨ho, hk⟩, rfl⟩
+    exact ⟨o, ho, by simpa using hk, rfl, rfl, rfl⟩
+  · intro e' he'
+    simp only [Spec.deleteObj, Spec.applyMap, List.mem_map, List.mem_filter] at he'
+    rcases he' with ⟨e, ⟨he, hk⟩, rfl⟩
+    exact ⟨e, he, by simpa using hk, rfl, rfl, rfl, rfl, rfl, rfl, rfl⟩
+
+/-- **children are kept by moving them to the parent**: see `hoist_inside` — a strict descendant `x ++ c :: rest`
+    ends up at `parent(x) ++ c' :: rest`; and it is renamed only when the name is taken (`validHoist`) -/
+theorem delete_hoists_children (x : Path) (ren : List (String × String)) (p : Path) (h : isUnder x p = true) :
+    ∃ c rest, p.drop x.length = c :: rest ∧ hoist x ren p = x.dropLast ++ renOf ren c :: rest :=
+  hoist_inside x ren p h
+
+/-- with the empty choice no child is renamed -/
+theorem delete_no_collision_keeps_names (x : Path) (p : Path) (h : isUnder x p = true) :
+    ∃ c rest, p.drop x.length = c :: rest ∧ hoist x [] p = x.dropLast ++ c :: rest := by
+  rcases hoist_inside x [] p h with ⟨c, rest, hd, hh⟩
+  exact ⟨c, rest, hd, by simpa [renOf_nil] using hh⟩
+
+/-- **deleting a connection removes exactly it and renumbers the later parallel ones** -/
+theorem delete_edge_renumbers (d : Diagram) (e : Edge) :
+    (Spec.deleteEdge d e).objs = d.objs ∧
+    (∀ f' ∈ (Spec.deleteEdge d e).edges, ∃ f ∈ d.edges, (f.sameGroup e && f.idx == e.idx) = false ∧
+        f'.label = f.label ∧ f'.attrs = f.attrs ∧ f'.src = f.src ∧ f'.dst = f.dst ∧ f'.sa = f.sa ∧ f'.da = f.da ∧
+        f'.idx = (if f.sameGroup e && decide (e.idx < f.idx) then f.idx - 1 else f.idx)) ∧
+    (∀ f ∈ d.edges, (f.sameGroup e && f.idx == e.idx) = false → Spec.renumberAfter e f ∈ (Spec.deleteEdge d e).edges) := by
+  refine ⟨?_, ?_, ?_⟩
+  · simp [Spec.deleteEdge, Spec.applyMap, filter_const_true]
+  · intro f' hf'
+    simp only [Spec.deleteEdge, Spec.applyMap, List.mem_map, List.mem_filter] at hf'
+    rcases hf' with ⟨f, ⟨hf, hk⟩, rfl⟩
+    refine ⟨f, hf, by cases h1 : f.sameGroup e <;> cases h2 : (f.idx == e.idx) <;> simp_all, ?_⟩
+    unfold Spec.renumberAfter
+    by_cases hc : (f.sameGroup e && decide (e.idx < f.idx)) = true
+    · simp [hc]
+    · simp [hc]
+  · intro f hf hk
+    simp only [Spec.deleteEdge, Spec.applyMap, List.mem_map, List.mem_filter]
+    exact ⟨f, ⟨hf, by simp [hk]⟩, rfl⟩
+
+/-! the driver's clauses hold of the abstract semantics on witnesses -/
+
+def exDel : Diagram :=
+  { objs := [⟨["a"], "L1", []⟩, ⟨["a", "b"], "L2", [("shape", "circle")]⟩, ⟨["a", "b", "c"], "L3", []⟩,
+             ⟨["b"], "L4", []⟩, ⟨["d"], "L5", []⟩],
+    edges := [⟨["a", "b"], ["d"], false, true, 0, "E1", []⟩, ⟨["a"], ["d"], false, true, 0, "E2", []⟩,
+              ⟨["a", "b"], ["d"], false, true, 1, "E3", []⟩, ⟨["a", "b"], ["d"], false, true, 2, "E4", []⟩] }
+
+/-- deleting `a`: child `a.b` collides with `b` and becomes `b 2` -/
+example : allHold (deleteObjClauses exDel (Spec.deleteObj exDel ["a"] [("b", "b 2")]) ["a"]) = true := by decide
+example : Spec.validHoist exDel ["a"] [("b", "b 2")] = true := by decide
+/-- not renaming the colliding child is rejected, and so is renaming without need -/
+example : Spec.validHoist exDel ["a"] [] = false := by decide
+example : Spec.validHoist exDel ["a", "b"] [("c", "c 2")] = false := by decide
+
+example : allHold (deleteEdgeClauses exDel (Spec.deleteEdge exDel ⟨["a", "b"], ["d"], false, true, 1, "E3", []⟩)
+    ⟨["a", "b"], ["d"], false, true, 1, "E3", []⟩) = true := by decide
+
+/-- the defect class C38-delete-object-leaks-dotted-attributes-to-parent on its witness
+    (`a: L1; a.x: L2; a.x.shape: hexagon`, Delete("a.x") leaves `a.shape: hexagon`) -/
+theorem C38_cx_attribute_leaks_to_parent :
+    firstFailing (deleteObjClauses
+      ⟨[⟨["a"], "L1", [("shape", "rectangle")]⟩, ⟨["a", "x"], "L2", [("shape", "hexagon")]⟩], []⟩
+      ⟨[⟨["a"], "L1", [("shape", "hexagon")]⟩], []⟩ ["a", "x"]) = some "delobj-changed-attrs" := by
+  decide
+
+/-- the defect class C38-board-scoped-delete-uses-null on its witness: children are not hoisted -/
+theorem C38_cx_null_delete_loses_children :
+    firstFailing (deleteObjClauses
+      ⟨[⟨["q"], "L2", []⟩, ⟨["q", "c"], "L3", []⟩], []⟩ ⟨[], []⟩ ["q"]) = some "delobj-lost-object" := by
+  decide
 
 end D2V.Edit
